@@ -64,6 +64,8 @@ inductive SaExpr
   | inlist (vals : List Lit) (ty : Ty) (expandOp : Op) -- expanding BindParameter of IN
   | inrows (rows : List (List Lit)) (arity : Nat) (expandOp : Op) -- same, TupleType
   | tuple_ (es : List SaExpr)                        -- Tuple
+  | litcol (text : String) (ty : Ty)                 -- literal_column(text, type_)
+  | ilikeOperand (e : SaExpr)                        -- compiler.ilike_case_insensitive(e)
   | absent                                           -- Python `None` (missing value=/else_=)
   deriving Repr, Inhabited
 
@@ -88,6 +90,8 @@ def tyOf : SaExpr → Ty
   | inlist _ ty _ => ty
   | inrows _ _ _ => .null
   | tuple_ _ => .null
+  | litcol _ ty => ty
+  | ilikeOperand e => tyOf e
   | absent => .null
 
 /-- `getattr(x, "operator", None)` (Grouping proxies attribute access to its element) -/
@@ -161,6 +165,7 @@ def selfGroup (against : Option Op) (e : SaExpr) : SaExpr :=
     | .inlist _ _ _ => e
     | .inrows _ _ _ => e
     | .tuple_ _ => e
+    | .ilikeOperand _ => e
     | .absent => e
     | _ => columnSelfGroup against e
 
@@ -352,15 +357,26 @@ inductive LikeK
   | like | notlike | ilike | notilike
   deriving DecidableEq, Repr, Inhabited
 
+inductive StrK
+  | contains | startswith | endswith | icontains | istartswith | iendswith
+  deriving DecidableEq, Repr, Inhabited
+
+def StrK.op : StrK → Op
+  | .contains => .contains_op | .startswith => .startswith_op | .endswith => .endswith_op
+  | .icontains => .icontains_op | .istartswith => .istartswith_op | .iendswith => .iendswith_op
+
 inductive U
   | col (name : String) (ty : Ty)
   | li (i : Int)
   | ls (s : String)
+  | pi (i : Int)        -- a plain Python int used directly as an operand (`col + 5`, `5 - col`)
+  | ps (s : String)     -- a plain Python str used directly as an operand
   | ln (s : String)
   | lb (b : Bool)
   | null | true_ | false_
   | bin (k : BinK) (a b : U)
   | like (k : LikeK) (esc : Option String) (a b : U)
+  | strop (k : StrK) (esc : Option String) (a b : U)
   | neg (a : U)
   | not_ (a : U)
   | between (x lo hi : U)
@@ -417,12 +433,21 @@ def BinK.reflected : BinK → Option BinK
   | .lt => some .gt | .gt => some .lt | .le => some .ge | .ge => some .le
   | _ => none
 
+def isPyLit : U → Bool
+  | .pi _ => true
+  | .ps _ => true
+  | _ => false
+
 mutual
 /-- apply the API calls of `u` in Python's evaluation order -/
 def build : U → Option SaExpr
   | .col n ty => some (.col n ty)
   | .li i => some (.bind (.int i) .int)
   | .ls s => some (.bind (.str s) .str)
+  -- `expr._bind_param(op, value)`: a BindParameter typed by `coerce_compared_value`, which for
+  -- int / str values has the affinity of the value
+  | .pi i => some (.bind (.int i) .int)
+  | .ps s => some (.bind (.str s) .str)
   | .ln s => some (.bind (.num s) .num)
   | .lb b => some (.bind (.bool b) .bool)
   | .null => some .null
@@ -435,11 +460,17 @@ def build : U → Option SaExpr
       else
         match k.reflected with
         | some k' =>
-          if pyReflected x y then booleanCompare y k'.op x (negateOp k'.op) none
+          -- a plain Python value on the left has no `__lt__` for elements: Python calls the
+          -- reflected method of the right operand (`5 < col` is `col > 5`)
+          if pyReflected x y || isPyLit a then booleanCompare y k'.op x (negateOp k'.op) none
           else booleanCompare x k.op y (negateOp k.op) none
         | none => booleanCompare x k.op y (negateOp k.op) none
     | _, _ => none
   | .like k esc a b =>
+    match build a, build b with
+    | some x, some y => booleanCompare x k.op y (negateOp k.op) esc
+    | _, _ => none
+  | .strop k esc a b =>
     match build a, build b with
     | some x, some y => booleanCompare x k.op y (negateOp k.op) esc
     | _, _ => none
@@ -547,6 +578,10 @@ def symOf : Op → Sym
   | .not_ilike_op => .notIlike | .between_op => .between | .not_between_op => .notBetween
   | .in_op => .in_ | .not_in_op => .notIn | .and_ => .and_ | .or_ => .or_ | .inv => .not_
   | .is_true => .eq | .is_false => .eq | .comma_op => .comma | .asbool_ => .eq
+  | .contains_op => .like | .startswith_op => .like | .endswith_op => .like
+  | .icontains_op => .like | .istartswith_op => .like | .iendswith_op => .like
+  | .not_contains_op => .notLike | .not_startswith_op => .notLike | .not_endswith_op => .notLike
+  | .not_icontains_op => .notLike | .not_istartswith_op => .notLike | .not_iendswith_op => .notLike
 
 def opText (op : Op) : String := (opString op).getD ("<no OPERATORS entry for " ++ op.name ++ ">")
 
@@ -618,6 +653,68 @@ def inG (d : Dialect) (lb : Bool) (core : G → G) : SaExpr → Option G
       else some (core (G.br .paren (commaList rowGs)))
   | _ => none
 
+/-! ### compile-time rewriting of the LIKE-based string operators
+
+`visit_contains_op_binary` & co. clone the binary, replace its right side by
+`'%' || right || '%'` (built with the *expression API*, so associative flattening applies and a
+`Grouping` around a concatenation is dissolved through `Grouping.__getattr__`), wrap the
+operands of the case-insensitive variants in `ilike_case_insensitive(…)`, and hand the clone to
+the LIKE visitor.  `lower` performs that rewriting bottom-up; `emit d e = render d true (lower e)`
+is what the compiler outputs. -/
+
+def percentLit : SaExpr := .litcol "'%'" .str
+
+/-- `a.concat(b)` as the visitors call it -/
+def concatApi (a b : SaExpr) : SaExpr := binaryOperate a .concat_op b
+
+def strOpKind (op : Op) : Option (Bool × Bool × Bool × Bool) :=
+  -- (leading %, trailing %, case-insensitive, negated)
+  match op with
+  | .contains_op => some (true, true, false, false)
+  | .not_contains_op => some (true, true, false, true)
+  | .startswith_op => some (false, true, false, false)
+  | .not_startswith_op => some (false, true, false, true)
+  | .endswith_op => some (true, false, false, false)
+  | .not_endswith_op => some (true, false, false, true)
+  | .icontains_op => some (true, true, true, false)
+  | .not_icontains_op => some (true, true, true, true)
+  | .istartswith_op => some (false, true, true, false)
+  | .not_istartswith_op => some (false, true, true, true)
+  | .iendswith_op => some (true, false, true, false)
+  | .not_iendswith_op => some (true, false, true, true)
+  | _ => none
+
+mutual
+def lower : SaExpr → SaExpr
+  | .binary op l r n esc ty =>
+    let l' := lower l
+    let r' := lower r
+    match strOpKind op with
+    | none => .binary op l' r' n esc ty
+    | some (lead, trail, ci, negated) =>
+      let lo := if ci then SaExpr.ilikeOperand l' else l'
+      let ro := if ci then SaExpr.ilikeOperand r' else r'
+      -- contains: percent.concat(right).concat(percent); startswith: percent._rconcat(right);
+      -- endswith: percent.concat(right)
+      let r1 := if lead then concatApi percentLit ro else ro
+      let r2 := if trail then concatApi r1 percentLit else r1
+      if ci then .binary op lo r2 n esc ty
+      else .binary (if negated then .not_like_op else .like_op) lo r2 n esc ty
+  | .clist op cs g b ty => .clist op (lowerList cs) g b ty
+  | .unary op e ty => .unary op (lower e) ty
+  | .asbool e op nop => .asbool (lower e) op nop
+  | .grouping e => .grouping (lower e)
+  | .case_ v ws e ty => .case_ (lower v) (lowerList ws) (lower e) ty
+  | .cast e ty => .cast (lower e) ty
+  | .func n args ty => .func n (lowerList args) ty
+  | .tuple_ es => .tuple_ (lowerList es)
+  | .ilikeOperand e => .ilikeOperand (lower e)
+  | e => e
+def lowerList : List SaExpr → List SaExpr
+  | [] => []
+  | e :: es => lower e :: lowerList es
+end
+
 /-- `visit_like_op_binary` & co.: `l LIKE r [ESCAPE 'c']` -/
 def likeG (d : Dialect) (s : Sym) (t : String) (l r : G) (esc : Option String) : G :=
   match esc with
@@ -678,6 +775,13 @@ def render (d : Dialect) (lb : Bool) : SaExpr → G
     | .not_ilike_op =>
       if d = .postgresql then likeG d .notIlike " NOT ILIKE " (render d lb l) (render d lb r) esc
       else likeG d .notLike " NOT LIKE " (lowerG (render d lb l)) (lowerG (render d lb r)) esc
+    | .icontains_op | .istartswith_op | .iendswith_op =>
+      -- operands already wrapped by `lower`; "else we assume ilower() has been applied"
+      if d = .postgresql then likeG d .ilike " ILIKE " (render d lb l) (render d lb r) esc
+      else likeG d .like " LIKE " (render d lb l) (render d lb r) esc
+    | .not_icontains_op | .not_istartswith_op | .not_iendswith_op =>
+      if d = .postgresql then likeG d .notIlike " NOT ILIKE " (render d lb l) (render d lb r) esc
+      else likeG d .notLike " NOT LIKE " (render d lb l) (render d lb r) esc
     | .between_op => betweenG .between " BETWEEN " (render d lb l) (render d lb r)
     | .not_between_op => betweenG .notBetween " NOT BETWEEN " (render d lb l) (render d lb r)
     | .in_op =>
@@ -725,11 +829,18 @@ def render (d : Dialect) (lb : Bool) : SaExpr → G
   | .inlist vs _ _ => G.br .paren (litListG d lb vs)
   | .inrows rows _ _ => G.br .paren (commaList (rows.map (fun r => G.br .paren (litListG d lb r))))
   | .tuple_ es => G.br .paren (chain .comma ", " (renderList d lb es))
+  | .litcol t _ =>
+    -- `escape_literal_column`: % doubled for the pyformat / format paramstyles
+    G.atom ⟨if doublePercents d then t.replace "%" "%%" else t, .str "%"⟩
+  | .ilikeOperand e => if d = .postgresql then render d lb e else lowerG (render d lb e)
   | .absent => opaqueG ""
 
 def renderList (d : Dialect) (lb : Bool) : List SaExpr → List G
   | [] => []
   | e :: es => render d lb e :: renderList d lb es
 end
+
+/-- what the compiler emits for an element -/
+def emit (d : Dialect) (e : SaExpr) : G := render d true (lower e)
 
 end SaVerif.Expr
